@@ -9,6 +9,6 @@ CONSTANTS
   MaxFields = 0
   MaxToks = 0
   MaxCnt = 0
-  NCases = 24
+  NCases = 30
   Tier = "quick"
 INVARIANT EmitReal
